@@ -262,6 +262,8 @@ func runC08(c *Ctx) {
 	}
 	r5 := c.Rule("R5", "a registry block torn by a crash is served from its pre-image to every reader: restoreFromCow reports success only after it copied the verified backup into the caller's buffer, also for read-only callers that cannot write the block back (shared with C23.R1)", 2)
 	cowRestoreRule(c, r5)
+	r6 := c.Rule("R6", "the priority log (meaning `undo this transaction's flip` to recovery) is removed before the commit's obsolete blobs are deleted: a crash inside the post-commit cleanup must not leave a log that makes recovery restore handles whose blobs are gone (shared with C10.R7)", 2)
+	priorityLogBeforeDeletionRule(c, r6)
 }
 
 // rulePriorityRestore (first half of C08.R3, shared by C09.R3): the priority log is removed only after
@@ -525,6 +527,8 @@ func runC07(c *Ctx) {
 	r7 := c.Rule("R7", "a first root's handle is registered only after its blob was written: the root id is published in StoreInfo.RootNodeID, so a registered handle without a blob is reachable data that does not load, and (the partial step not being undone, R2) it blocks every later creator of that root for good, whereas an orphan blob is overwritten by the retry", 1)
 	rootBlobBeforeHandleRule(c, r7)
 	failedFlipKeepsKeysRule(c, r5)
+	r13 := c.Rule("R13", "the count reversal of a failed commit is applied to the right stores: positional pairing of the rollback store infos with the backends' created flags (shared with C01.R9 / C06.R5)", 3)
+	positionalPairingRule(c, r13)
 	r12 := c.Rule("R12", "what a rollback deletes is what this transaction wrote: the rollback list takes an item's current id before the id is reset (shared with C19.R7)", 2)
 	rollbackListOrderRule(c, r12)
 	r11 := c.Rule("R11", "building a log record changes nothing: the functions phase1Commit calls only to compute the payload of logger.log(...) do not assign tracker or transaction state - the rollback of a commit that fails later calls the same getters again and must see what the first call saw", 3)
